@@ -32,6 +32,24 @@ pub fn looks_like_scheme(bytes: &[u8]) -> bool {
 	false
 }
 
+/// Checks if the first segment of the given path contains a `:`.
+///
+/// Such a path cannot be written as is at the start of a relative reference:
+/// what precedes the `:` would be read as a scheme, or the reference would
+/// not be valid at all (`1a:b`, `:b`).
+#[inline]
+pub fn first_segment_has_colon(bytes: &[u8]) -> bool {
+	for &b in bytes {
+		match b {
+			b':' => return true,
+			b'/' => return false,
+			_ => (),
+		}
+	}
+
+	false
+}
+
 #[derive(Debug, PartialEq, Eq)]
 pub enum SchemeAuthorityOrPath {
 	Scheme,
